@@ -211,7 +211,8 @@ class Generic:
         for content in contents:
             raw_kern += separator + content
             document, _ = create(raw_kern)
-            high_index = document.measures_count()
+            # a leading fragment may hold no measure yet (only the preamble): that is 0 measures, not an error
+            high_index = len(document.measure_start_tree_stages)
             indexes.append((low_index, high_index))
 
             low_index = high_index + 1  # Next fragment start is the previous fragment end + 1
